@@ -289,6 +289,7 @@ func genCopy(r *core.Rand, tier string) core.Case {
 	}
 	lines := []string{hdr}
 	next := 1
+	noCopies := r.Chance(25)
 	ops := func(i, n int, pushBias int) {
 		for ; n > 0; n-- {
 			switch r.Pick(pushBias, 30, 6, 4, 4, 4, 3) {
@@ -321,6 +322,15 @@ func genCopy(r *core.Rand, tier string) core.Case {
 			b = (a + 1) % nobj
 		}
 		ops(a, r.Range(2, 10), 50) // use a (rotate it, leave some content)
+		if noCopies { // independent objects only: interleave, re-initialise, never copy
+			ops(b, r.Range(2, 10), 50)
+			if r.Bool() {
+				lines = append(lines, fmt.Sprintf("%d init %d", b, r.Range(1, maxCap)))
+			}
+			ops(a, r.Range(2, 8), 40)
+			ops(b, r.Range(2, 8), 40)
+			continue
+		}
 		lines = append(lines, fmt.Sprintf("copy %d %d", a, b))
 		x := a // the copy that is re-configured
 		if r.Bool() {
